@@ -49,7 +49,10 @@ Inductive case :=
             (lc lc2 : option jv)                       (* white-box: toLowerCaseKeyMap of the JSON rendering *)
             (load load2 : option obx3)                 (* the three loaders, when the shape is loaded at all *)
 | CaseBad (T : fields) (load : ob3)                    (* three malformed texts *)
-| CaseMFmt (T : fields) (d : doc) (bytes readers : ob3).   (* mapping.Unmarshal{Json,Yaml,Toml}{Bytes,Reader} *)
+| CaseMFmt (T : fields) (d : doc) (bytes readers : ob3)    (* mapping.Unmarshal{Json,Yaml,Toml}{Bytes,Reader} *)
+| CaseNull (T : fields) (d : doc) (lj ly : ob).            (* a document WITH nulls: conf.LoadFromJsonBytes / LoadFromYamlBytes
+                                                             (TOML has no null: outside the property's quantifier; the model's
+                                                             account of it, Props.yaml_null_refuted, is tied here) *)
 
 Definition ob_of (r : result gval) : ob :=
   match r with Ok v => OOk v | Err _ => OErr | Panic => OPanic end.
@@ -130,6 +133,20 @@ Definition lc_agrees (i : option finfo) (d : doc) (seen : option jv) : bool :=
   | None, _ => true
   end.
 
+(* documents with nulls: keys distinct, integers in int64 *)
+Fixpoint repn (d : doc) : bool :=
+  match d with
+  | DNilArr => false
+  | DInt z => int64_ok z
+  | DList l => repn_list l
+  | DMap m => nodupb (dkeys m) && repn_map m
+  | _ => true
+  end
+with repn_list (l : docs) : bool :=
+  match l with DLnil => true | DLcons d r => repn d && repn_list r end
+with repn_map (m : dmap) : bool :=
+  match m with DMnil => true | DMcons _ d r => repn d && repn_map r end.
+
 (* the generator only emits documents representable in all three formats *)
 Definition in_scope (c : case) : bool :=
   match c with
@@ -138,6 +155,7 @@ Definition in_scope (c : case) : bool :=
   | CaseShape T d d2 _ _ _ _ _ => rep_top d && opt_all d2 rep_top
   | CaseBad _ _ => true
   | CaseMFmt T d _ _ => rep_top d
+  | CaseNull T d _ _ => match d with DMap _ => repn d | _ => false end
   end.
 
 (* the model (with the concrete re-rendering [rf_go]) reproduces what the implementation did:
@@ -196,6 +214,8 @@ Definition agrees (c : case) : bool :=
       let um := fun f => ob_of (unmarshal fixed jcfg T (Some (shape rf_go f d))) in
       let m := mkOb3 (um FJson) (um FYaml) (um FToml) in
       rf_ok_doc rf_go d && ob3_eqb m bytes && ob3_eqb m readers
+    | CaseNull T d lj ly =>
+      ob_eqb (ob_of (load_doc rf_go T FJson d)) lj && ob_eqb (ob_of (load_doc rf_go T FYaml d)) ly
     end
   else true.
 
@@ -294,6 +314,9 @@ Definition prop_gen (same3 : ob3 -> bool) (c : case) : bool :=
       (* mapping's own YAML / TOML / JSON entry points: same verdict, equal values, and the Reader
          variants behave like the Bytes ones *)
       ob3_nopanic bytes && same3 bytes && ob3_nopanic readers && ob3_eqb bytes readers
+    | CaseNull T d lj ly =>
+      (* nothing is demanded between the formats (the document has no TOML rendering); no panic *)
+      negb (ob_panics lj || ob_panics ly)
     end
   else true.
 
@@ -316,4 +339,6 @@ Definition model_obs (c : case) :=
   | CaseMFmt T d _ _ =>
     (let um := fun f => ob_of (unmarshal fixed jcfg T (Some (shape rf_go f d))) in mkOb3 (um FJson) (um FYaml) (um FToml),
      None, None, (JNull, JNull))
+  | CaseNull T d _ _ =>
+    (mkOb3 (ob_of (load_doc rf_go T FJson d)) (ob_of (load_doc rf_go T FYaml d)) OErr, None, None, (JNull, JNull))
   end.
